@@ -24,6 +24,8 @@ impl<I: Interner> CoherenceSolver<'_, I> {
         // Iterate over every pair of impls for the same trait.
         let impls = self.db.local_impls_to_coherence_check(self.trait_id);
         for (l_id, r_id) in impls.into_iter().tuple_combinations() {
+            #[cfg(chalk_verif)]
+            verif::begin_pair(format!("{:?}", l_id), format!("{:?}", r_id));
             let lhs = &self.db.impl_datum(l_id);
             let rhs = &self.db.impl_datum(r_id);
 
@@ -142,6 +144,8 @@ impl<I: Interner> CoherenceSolver<'_, I> {
             None => false,
         };
         debug!("overlaps: result = {:?}", result);
+        #[cfg(chalk_verif)]
+        verif::record_answer(result);
         result
     }
 
@@ -255,6 +259,67 @@ impl<I: Interner> CoherenceSolver<'_, I> {
 
         debug!("specializes: result = {:?}", result);
 
+        #[cfg(chalk_verif)]
+        verif::record_answer(result);
         result
+    }
+}
+
+/// Verification hook, compiled only with `--cfg chalk_verif`: the answers of the `disjoint` /
+/// `specializes` queries, for an arbitrary pair of impls and as issued by
+/// `visit_specializations_of_trait` (in visiting order).
+#[cfg(chalk_verif)]
+impl<I: Interner> CoherenceSolver<'_, I> {
+    /// `(disjoint(l, r), specializes(l, r), specializes(r, l))`, all three computed.
+    pub fn verif_pair_oracle(&self, l_id: ImplId<I>, r_id: ImplId<I>) -> (bool, bool, bool) {
+        let lhs = &self.db.impl_datum(l_id);
+        let rhs = &self.db.impl_datum(r_id);
+        (
+            self.disjoint(lhs, rhs),
+            self.specializes(l_id, r_id),
+            self.specializes(r_id, l_id),
+        )
+    }
+}
+
+#[cfg(chalk_verif)]
+pub mod verif {
+    use std::cell::RefCell;
+
+    /// One pair of impls visited by `visit_specializations_of_trait`: the ids (rendered with
+    /// `Debug`) and the answers of the queries made for it, in call order: nothing (pair
+    /// skipped), `[disjoint]`, or `[disjoint, specializes(lhs, rhs), specializes(rhs, lhs)]`.
+    #[derive(Clone, Debug, PartialEq, Eq)]
+    pub struct PairQueries {
+        pub lhs: String,
+        pub rhs: String,
+        pub answers: Vec<bool>,
+    }
+
+    thread_local! {
+        static LOG: RefCell<Vec<PairQueries>> = RefCell::new(Vec::new());
+    }
+
+    pub(super) fn begin_pair(lhs: String, rhs: String) {
+        LOG.with(|l| {
+            l.borrow_mut().push(PairQueries {
+                lhs,
+                rhs,
+                answers: Vec::new(),
+            })
+        });
+    }
+
+    pub(super) fn record_answer(answer: bool) {
+        LOG.with(|l| {
+            if let Some(last) = l.borrow_mut().last_mut() {
+                last.answers.push(answer);
+            }
+        });
+    }
+
+    /// Returns and clears what was recorded on this thread.
+    pub fn take() -> Vec<PairQueries> {
+        LOG.with(|l| std::mem::take(&mut *l.borrow_mut()))
     }
 }
